@@ -54,7 +54,7 @@ class Prop(Check):
         "Proc.C13_phase",
     ]
     DRIVER = "Drivers/Proc.lean"
-    QUICK_CASES = 700
+    QUICK_CASES = 500
     THOROUGH_CASES = 20000
     RULE = ("generated grammars with 2..5 common rules, 0..3 abstract rules (nested, with match-rule alternatives, "
             "wrapped alternatives), recursive containment, references with postponement schedules, user classes, "
